@@ -180,9 +180,12 @@ def ref_gnu_lookup(raw, name, h, v):
     if g["malformed"]:
         return ("fault", 0)
     mw = r["maskwords"]
-    if mw == 0 or mw & (mw - 1):
+    if mw != 0 and mw & (mw - 1):
+        return ("fault", 0)          # _dl_setup_hash: assert ((bitmask_nwords & (bitmask_nwords - 1)) == 0)
+    wi = (h // 64) & ((mw - 1) & 0xffffffff)
+    if wi >= len(r["bloom"]):
         return ("fault", 0)
-    word = r["bloom"][(h // 64) & (mw - 1)]
+    word = r["bloom"][wi]
     if not ((word >> (h % 64)) & (word >> ((h >> r["shift"]) % 64)) & 1):
         return ("none", 0)
     i = r["buckets"][h % r["nbuckets"]]
